@@ -1,9 +1,7 @@
 CONSTANTS
   Dev = {}
-  MaxT = 2
-  AltDepth = 1
-  Thorough = FALSE
 SPECIFICATION Spec
+INVARIANT CollectionIsSortedContent
+INVARIANT ChainIsFunctionOfContent
 INVARIANT Emit
-INVARIANT EmitKeys
 CHECK_DEADLOCK FALSE
